@@ -4,6 +4,7 @@ import gen, vf, oracles
 
 
 def run(ctx):
+    gen.INTEGRAL[0] = True          # real-typed weights are integer-valued here: how fractional weights are rounded is C08's subject
     ctx.trusted = ['Coq 8.16.1 kernel; theorems closed under the global context',
                    'correspondence K-E2E: sequences of interleaved calls of all variants in ONE process (the harness handles a whole case file in one process), each compared with the model\'s value for that call alone; the same calls again in fresh processes',
                    'cannot be exhibited by the model: reads of uninitialised memory, hidden static state -- covered by running every case under ASan/UBSan and by the repeat/interleave/pre-fill oracle; a grep for `static` / namespace-scope mutable variables in the headers is reported in the evidence',
@@ -48,7 +49,7 @@ def run(ctx):
         groups.append(ids)
     order = rng.shuffle(list(range(len(seq))))
     seq = [seq[i] for i in order]
-    res = ctx.component('K-E2E', seq, keys={'status', 'labels', 'start'})
+    res = ctx.component('K-E2E', seq, keys={'status', 'labels'})
     ctx.component('K-E2E(whole model)', seq[:len(seq) // 3], verdict=False)
     # fresh processes for a subset
     fresh_bad = 0
